@@ -546,6 +546,33 @@ theorem winv_simInv : SimInv2 WInv (fun _ _ => True) where
       · exact Nat.lt_succ_of_lt (h.2.2 i hi)
       · simp only [List.map_cons, List.map_nil, List.mem_singleton] at hi; subst hi; exact Nat.lt_succ_self _
     · exact wi_mono (Nat.le_succ _) h
+  clone := fun x f h => by
+    show WI (x.nextWaiter + 1) (pollWaiter { x.st with waiters := x.st.waiters ++ [{ id := x.nextWaiter, done := f }] } x.nextWaiter)
+    have hfresh : x.nextWaiter ∉ x.st.waiters.map (·.id) := fun hin => Nat.lt_irrefl _ (h.2.2 _ hin)
+    let s1 : St := { x.st with waiters := x.st.waiters ++ [{ id := x.nextWaiter, done := f }] }
+    have hn1 : (s1.waiters.map (·.id)).Nodup := by
+      show ((x.st.waiters ++ [({ id := x.nextWaiter, done := f } : Waiter)]).map (·.id)).Nodup
+      rw [List.map_append]
+      refine List.nodup_append.2 ⟨h.2.1.1, by simp, ?_⟩
+      intro a ha b hb
+      simp only [List.map_cons, List.map_nil, List.mem_singleton] at hb
+      subst hb; intro he; subst he; exact hfresh ha
+    have hx : WInvX x.nextWaiter s1 := by
+      refine ⟨hn1, ?_⟩
+      intro wt hwt hres hne
+      rcases List.mem_append.1 hwt with hwt | hwt
+      · exact h.2.1.2 wt hwt hres
+      · simp only [List.mem_singleton] at hwt; subst hwt; exact absurd rfl hne
+    obtain ⟨a, b⟩ := poll_keeps s1 x.nextWaiter hn1 h.1
+    refine ⟨a, winv_poll x.nextWaiter h.1 hx, ?_⟩
+    rw [b]
+    intro i hi
+    show i < x.nextWaiter + 1
+    have : i ∈ (x.st.waiters ++ [({ id := x.nextWaiter, done := f } : Waiter)]).map (·.id) := hi
+    rw [List.map_append] at this
+    rcases List.mem_append.1 this with hi | hi
+    · exact Nat.lt_succ_of_lt (h.2.2 i hi)
+    · simp only [List.map_cons, List.map_nil, List.mem_singleton] at hi; subst hi; exact Nat.lt_succ_self _
 
 /-- **C07 (tickets)** — with a flag keeping every registered waker (repair F3/F5) and whatever the
     other repairs: in every state of every run, a ticket that has not resolved is waiting on a flag that
